@@ -176,6 +176,45 @@ def py_side(model, proto, rng, quick, stats, viols, ctx):
 
 # ------------------------------------------------------------------------------- C++ node
 
+def build_script(hr, steps, vals, rfmt, plain=False):
+    """A complete read-everything / write-everything call script.  plain: one item at a time (every read goes into a
+    fresh variable in the harness), one write per item."""
+    script = [["mkR", rfmt], ["mkW", "binary"]]
+    for k, s in enumerate(steps):
+        if not s["stream"]:
+            script += [["R1", k], ["W1", k]]
+            continue
+        n_items = len(vals[k])
+        # read phase for this step: until the reader says the stream ended
+        reads, remaining = [], n_items
+        while True:
+            if plain or hr.chance(0.5):
+                reads.append(["R1", k])
+                took = 1
+            else:
+                cap = hr.choice([1, 2, 3, 7, max(1, n_items)])
+                reads.append(["RB", k, cap])
+                took = cap
+            remaining -= took
+            if remaining < 0:
+                break
+        script += reads
+        left = n_items
+        while left > 0:
+            if not plain and hr.chance(0.12):
+                script.append(["WB", k, 0])      # an empty batch in the middle of the stream
+            if plain or hr.chance(0.5):
+                script.append(["W1", k]); left -= 1
+            else:
+                g = min(left, hr.choice([1, 2, 3, left]))
+                script.append(["WB", k, g]); left -= g
+        if not plain and hr.chance(0.3):
+            script.append(["WB", k, 0])
+        script.append(["E", k])
+    script += [["CR"], ["CW"]]
+    return script
+
+
 def cpp_side(model, cm, proto, rng, quick, stats, viols, ctx):
     env, ns = model.env, model.pkg.namespace
     codec = R.Codec(env)
@@ -200,46 +239,51 @@ def cpp_side(model, cm, proto, rng, quick, stats, viols, ctx):
             meta.append(("relay", vals, parts, flat, runs[-1]["batch"]))
         # API-call histories: read with mixed single/batch reads, write back with mixed groupings
         for h in range(2 if quick else 5):
-            hr = r.fork("script", h)
-            script = [["mkR", "binary"], ["mkW", "binary"]]
-            for k, s in enumerate(steps):
-                if not s["stream"]:
-                    script += [["R1", k], ["W1", k]]
-                    continue
-                n_items = len(vals[k])
-                # read phase for this step: until the reader says the stream ended
-                reads, remaining = [], n_items
-                while True:
-                    if hr.chance(0.5):
-                        reads.append(["R1", k])
-                        took = 1
-                    else:
-                        cap = hr.choice([1, 2, 3, 7, max(1, n_items)])
-                        reads.append(["RB", k, cap])
-                        took = cap
-                    remaining -= took
-                    if remaining < 0:
-                        break
-                script += reads
-                left = n_items
-                while left > 0:
-                    if hr.chance(0.12):
-                        script.append(["WB", k, 0])      # an empty batch in the middle of the stream
-                    if hr.chance(0.5):
-                        script.append(["W1", k]); left -= 1
-                    else:
-                        g = min(left, hr.choice([1, 2, 3, left]))
-                        script.append(["WB", k, g]); left -= g
-                if hr.chance(0.3):
-                    script.append(["WB", k, 0])
-                script.append(["E", k])
-            script += [["CR"], ["CW"]]
+            script = build_script(r.fork("script", h), steps, vals, "binary")
             runs.append({"proto": proto.name, "op": "script", "input": ii, "script": script})
             meta.append(("script", vals, parts, flat, script))
+        if rep == 0 or not quick:
+            # the NDJSON reader (generated from_json, look-ahead line reader).  What the JSON text of a value is belongs
+            # to C02; here the same NDJSON document is read by different histories - one item at a time into a fresh
+            # variable each (the baseline), CopyTo with a reused destination and several buffer sizes, mixed single and
+            # batch reads - and every one of them has to deliver what the baseline delivers.
+            raw = codec.encode_ndjson(proto, ns, schema, vals).encode("utf-8")
+            inputs.append(raw)
+            jj = len(inputs) - 1
+            base = build_script(r.fork("ndbase"), steps, vals, "ndjson", plain=True)
+            runs.append({"proto": proto.name, "op": "script", "input": jj, "script": base})
+            meta.append(("ndjson_baseline", vals, parts, flat, base))
+            group = len(meta) - 1
+            for c in ([1] + r.sample([2, 3, 7, 64], 2)):
+                runs.append({"proto": proto.name, "op": "relay", "in_fmt": "ndjson", "out_fmt": "binary", "input": jj, "batch": [c] * nb,
+                             "chunk_mode": r.choice([0, 0, 3]), "chunk_seed": r.randint(1, 1 << 30)})
+                meta.append(("ndjson_relay", vals, parts, group, runs[-1]["batch"]))
+            for h in range(2 if quick else 5):
+                script = build_script(r.fork("ndscript", h), steps, vals, "ndjson")
+                runs.append({"proto": proto.name, "op": "script", "input": jj, "script": script})
+                meta.append(("ndjson_script", vals, parts, group, script))
     if not runs:
         return
     results = cm.run_plan(inputs, runs, timeout=180)
+    nd_base = {}          # index of a baseline in meta -> the flat values it delivered (None: the C++ reader cannot read the document at all)
+    for idx, (res, (kind, vals, parts, flat, how)) in enumerate(zip(results, meta)):
+        if kind == "ndjson_baseline":
+            nd_base[idx] = None
+            if res is not None and not res.get("crashed") and res.get("ok") and not [c for c in res.get("calls", []) if c["r"] == "exc"]:
+                try:
+                    v2, _, _ = codec.decode_stream(proto, ns, bytes.fromhex(res["out"]), schema)
+                    nd_base[idx] = sw.flat_values(proto, v2)
+                except (R.Truncated, R.Malformed):
+                    pass
+            if nd_base[idx] is None:
+                stats["cpp_ndjson_baseline_unreadable(skipped)"] = stats.get("cpp_ndjson_baseline_unreadable(skipped)", 0) + 1
     for res, (kind, vals, parts, flat, how) in zip(results, meta):
+        if kind == "ndjson_baseline":
+            continue
+        if kind.startswith("ndjson_"):
+            flat = nd_base.get(flat)
+            if flat is None:
+                continue
         stats["runs"] = stats.get("runs", 0) + 1
         stats["cpp_" + kind] = stats.get("cpp_" + kind, 0) + 1
         if res is None:
@@ -249,9 +293,9 @@ def cpp_side(model, cm, proto, rng, quick, stats, viols, ctx):
                           doc(model, proto, vals, parts, ctx, "cpp_" + kind, res.get("stderr", "")[-400:], how=how)))
             continue
         err = None
-        if kind == "relay" and not res["ok"]:
+        if kind.endswith("relay") and not res["ok"]:
             err = "%s: %s" % (res["phase"], res.get("what"))
-        if kind == "script":
+        if kind.endswith("script"):
             bad = [c for c in res.get("calls", []) if c["r"] == "exc"]
             if bad or not res["ok"]:
                 err = "call raised: %s" % (bad[0].get("what") if bad else res.get("what"))
@@ -264,8 +308,8 @@ def cpp_side(model, cm, proto, rng, quick, stats, viols, ctx):
         except (R.Truncated, R.Malformed) as e:
             why = "emitted stream does not decode: %r" % (e,)
         if why:
-            cls = "items_depend_on_read_batching" if kind == "relay" else "items_depend_on_call_history"
-            viols.append(({"class": cls, "lang": "cpp", "format": "binary"}, doc(model, proto, vals, parts, ctx, "cpp_" + kind, why, how=how)))
+            cls = "items_depend_on_read_batching" if kind.endswith("relay") else "items_depend_on_call_history"
+            viols.append(({"class": cls, "lang": "cpp", "format": "ndjson" if kind.startswith("ndjson") else "binary"}, doc(model, proto, vals, parts, ctx, "cpp_" + kind, why, how=how)))
 
 
 def doc(model, proto, vals, parts, ctx, pipeline, detail, how=None, hist_seed=None):
@@ -290,6 +334,12 @@ def model_task(task, ybin, root):
     vt = rng.choice([M.Prim("int32"), M.Prim("string"), M.Opt(M.Prim("float64")), M.Vec(M.Prim("uint16"))])
     first.steps.append(("steermap", M.Map(kt, vt), True))
     first.steps.append(("steervec", M.Vec(M.Opt(M.Map(M.Prim("string"), M.Prim("int8")))), True))
+    # a generic record whose type argument can be absent (an optional, a nullable union): consecutive items differ in
+    # whether the parameter-typed field is there at all
+    fn0 = sorted(pkg.files)[0]
+    pkg.files[fn0].append(M.Record("SteerGenO", ("T",), [("tag", M.Prim("int32")), ("payload", M.TParam("T"))]))
+    first.steps.append(("steergeno", M.Named("SteerGenO", (rng.choice([M.Opt(M.Prim("int32")), M.Opt(M.Prim("string")),
+                                                                   M.Union((("int32", M.Prim("int32")), ("string", M.Prim("string"))), nullable=True)]),)), True))
     # items that are numeric arrays: the readers may hand out views of their staging buffer
     first.steps.append(("steerarr", M.Arr(M.Prim(rng.choice(["float32", "int16", "float64", "complexfloat32"])), rng.choice([None, 1, 2, ((None, 3),)])), True))
     model = P.PyModel(pkg, ybin, root, want_cpp=want_cpp, cpp_opts=C.CPP_OPTS)
@@ -359,11 +409,23 @@ def replay_doc(doc_, ybin, root):
                 why = "" if out == base else "NDJSON lines differ from the one-call-per-step baseline"
             return bool(why), why
         cm = C.CppModel(model.dir)
-        if doc_["pipeline"] == "cpp_relay":
+        if doc_["pipeline"].startswith("cpp_ndjson"):
+            # same NDJSON document, baseline history (fresh variable per item) against the recorded history
+            raw = codec.encode_ndjson(proto, ns, schema, vals).encode("utf-8")
+            base = build_script(M.derive(1, "replay"), cm.protos[proto.name], vals, "ndjson", plain=True)
+            if doc_["pipeline"] == "cpp_ndjson_relay":
+                run = {"proto": proto.name, "op": "relay", "in_fmt": "ndjson", "out_fmt": "binary", "input": 0, "batch": doc_["how"]}
+            else:
+                run = {"proto": proto.name, "op": "script", "input": 0, "script": doc_["how"]}
+            rb, res = cm.run_plan([raw], [{"proto": proto.name, "op": "script", "input": 0, "script": base}, run])
+            vb, _, _ = codec.decode_stream(proto, ns, bytes.fromhex(rb["out"]), schema)
+            flat = sw.flat_values(proto, vb)
+        elif doc_["pipeline"] == "cpp_relay":
             run = {"proto": proto.name, "op": "relay", "in_fmt": "binary", "out_fmt": "binary", "input": 0, "batch": doc_["how"]}
+            res = cm.run_plan([data], [run])[0]
         else:
             run = {"proto": proto.name, "op": "script", "input": 0, "script": doc_["how"]}
-        res = cm.run_plan([data], [run])[0]
+            res = cm.run_plan([data], [run])[0]
         if res.get("crashed"):
             return cls == "reader_or_writer_crashed", res.get("stderr", "")[-300:]
         bad = [c for c in res.get("calls", []) if c["r"] == "exc"]
@@ -383,13 +445,13 @@ def main():
     runner.run(PROP, "exploration", "checks.C17", quick_models=40, thorough_budget=1800,
                rule=("one case = one generated protocol with stream steps x seeded item sequences (2-7 items whose shapes differ) x [python] read of a reference stream "
                      "with a seeded block partition + 2-5 write histories (list / generator / tuple / empty calls) in binary or NDJSON, [C++ for every 4th model] CopyTo relays "
-                     "with buffer capacities {1,2,3,7,64,n-1,n,n+1} + 2-5 API-call histories mixing single and batch reads/writes; 60% of workloads carry alignment padding that "
+                     "with buffer capacities {1,2,3,7,64,n-1,n,n+1} + 2-5 API-call histories mixing single and batch reads/writes, and the same for one NDJSON document per protocol (CopyTo with a reused destination and mixed read histories against a baseline that reads every item into a fresh variable); every model carries streams of maps, of vectors of optionals, of arrays and of a generic record whose type argument can be absent; 60% of workloads carry alignment padding that "
                      "puts the 65536-byte flush/refill boundary 0-48 bytes before the first stream item; oracle = flat list via the independent reference decoder"),
                real_code="generated Python package + shipped _binary.py/_ndjson.py; generated C++ (types, protocols, binary) + shipped yardl/detail/** headers, g++ -std=c++17",
                stubbed="C++: nd-array header (cpp.overrideArrayHeader) and date/date.h are verification stubs; harness main emitted from the generated protocols.h",
                assumptions=["reference codec per docs/reference, with int8/uint8 as one raw byte"],
                replay_fn=replay_doc, quick_budget=150,
-               fault_keys=("value_straddles_refill", "empty_write_call", "generator_path", "list_path", "tuple_path", "cpp_relay", "cpp_script", "py_write_histories"))
+               fault_keys=("value_straddles_refill", "empty_write_call", "generator_path", "list_path", "tuple_path", "cpp_relay", "cpp_script", "cpp_ndjson_relay", "cpp_ndjson_script", "py_write_histories"))
 
 
 if __name__ == "__main__":
